@@ -37,7 +37,7 @@ def gen(tier, rng):
         best = min((bytes(rng.randrange(256) for _ in range(10)) for _ in range(10)), key=lambda mm: len(pyref.sign(p, sk, mm, want_trace=True)[1]))
         out.append(Case("signature", cp, [bytes(p.sig), best, sk, 0, b""], ["in_domain", "deterministic", "model-compared"]))
     # committed rare-path corpus: attempts rejected only by ||c*t0|| >= gamma2, and rejection chains of 37..165 attempts
-    for name, tag in (("c05_ct0_rejections.json", "cause-ct0"), ("c05_long_chains.json", "long-chain")):
+    for name, tag in (("c05_ct0_rejections.json", "cause-ct0"), ("c05_long_chains.json", "long-chain"), ("c05_very_long_chains.json", "very-long-chain")):
         for e in corpus(name):
             out.append(Case("signature_live", e["set"], [bytes.fromhex(e["msg"]), bytes.fromhex(e["sk"]), 0],
                             ["in_domain", "deterministic", "crafted-key", tag, "corpus", "crate-only"]))
